@@ -36,6 +36,7 @@ def install():
         base.np = shim
         rd.np = shim
         gd.np = shim
+        inc.np = shim
         inc.isclose = isclose_stub
     _installed.update(base=base, rd=rd, inc=inc, gd=gd, shim=shim)
     return _installed
